@@ -50,17 +50,17 @@ def plan(tier, seed):
 def floors(tier):
     return {'evaluations': 30000, 'distinct_nontrivial': 10000, 'errors_located': 15000,
             'faults_injected': 20000, 'histkeys:fault': 9, 'legacy_api_errors': 3000,
-            'custom_context_soups': 500, 'parser_class_context_soups': 1000}
+            'custom_context_soups': 500, 'parser_class_context_soups': 1000, 'parses_from_configured_state': 2000}
 
 
 def setup(rec):
     pass
 
 
-def strict_outcome(s, ctx, api):
+def strict_outcome(s, ctx, api, psopts=None):
     """('ok', nodes) / ('parse_error', exc) / ('foreign', exc)"""
     try:
-        lw = walker(s, ctx, tolerant=False)
+        lw = walker(s, ctx, tolerant=False, psopts=psopts)
         if api == 'new':
             nl, _ = lw.parse_content(LatexGeneralNodesParser())
         else:
@@ -92,8 +92,11 @@ def check_case(case, rec):
     ctx = work.ctx_for(case.get('ctx'))
     must_raise = case.get('must_raise', False)
     apis = case.get('apis', ['new', 'legacy'])
+    psopts = case.get('psopts')
+    if psopts:
+        rec.monitor('parses_from_configured_state')
     for api in apis:
-        what, val, _ = strict_outcome(s, ctx, api)
+        what, val, _ = strict_outcome(s, ctx, api, psopts)
         rec.hist('outcome', what)
         if what == 'foreign':
             import traceback
@@ -162,6 +165,10 @@ def run_shard(desc, rec):
             rec.case()
             rec.monitor('parser_class_context_soups')
             check_case({'s': s, 'ctx': {'vocab': 'nlargs'}}, rec)
+        # the walker started from a non-default parsing state (every switch of ParsingState)
+        for i, s in enumerate(work.soups(rng, max(400, desc['count'] // 3))):
+            rec.case()
+            check_case({'s': s, 'psopts': work.PS_CONFIGS[i % len(work.PS_CONFIGS)]}, rec)
     else:
         # verbatim text is restricted to characters that stay inert if a fault makes the parser
         # re-read it as markup (a '%' or brace inside former verbatim text could hide or re-balance
